@@ -137,6 +137,10 @@ func TestIsLocalhost(t *testing.T) {
 
 		{"::1", true},
 		{"::", true},
+		{"::0", true},
+		{"0:0:0:0:0:0:0:0", true},
+		{"::ffff:0.0.0.0", true},
+		{"::ffff:127.0.0.1", true},
 
 		{"::10", false},
 		{"2001:0db8:85a3:0000:0000:8a2e:0370:7334", false},
